@@ -38,6 +38,14 @@ Proof.
   intro H. destruct (G kvs [] H) as [[]|H1]. exact H1.
 Qed.
 
+Lemma assoc_In_pair : forall {A} k (l : list (atom * A)) v, assoc k l = Some v -> In (k, v) l.
+Proof.
+  induction l as [|[k' v'] l IH]; intros v H; simpl in H; [discriminate|].
+  destruct (beqb k k') eqn:E.
+  - apply beqb_eq in E. inversion H; subst. left. reflexivity.
+  - right. auto.
+Qed.
+
 Lemma set_field_Forall : forall (P : pyval -> Prop) name x rows vals,
   Forall P vals -> P x -> Forall P (set_field name x rows vals).
 Proof.
@@ -312,9 +320,26 @@ Section Alias.
       apply set_field_Forall; [exact H | apply Good_hfree; reflexivity].
     Qed.
 
+    (* current copy_pop: a fresh cell holding handle-free copies; the popped value is handle-free *)
+    Lemma copy_pop_good : forall G f s v k x md s',
+      HV s -> copy_pop New f s v k = Ok (x, md, s') ->
+      (exists e, s' = s ++ e) /\ hfree x = true /\ Good G s' md.
+    Proof.
+      intros G f s v k x md s' Hv H. unfold copy_pop in H. destruct v; try discriminate.
+      destruct (lookup s h) as [[it|l]|]; try discriminate.
+      destruct (deepcopy f s (VIDict h)) as [[| | | | | | |m kvs]|] eqn:D1; try discriminate.
+      unfold alloc in H. inversion H; subst. apply deepcopy_hfree in D1. simpl in D1.
+      rewrite forallb_forall in D1. split; [eexists; reflexivity|]. split.
+      - unfold popped. destruct (assoc k kvs) as [x0|] eqn:A0; [|reflexivity].
+        apply assoc_In_pair in A0. apply (D1 _ A0).
+      - apply Good_fresh_idict; [apply HV_fresh; exact Hv|].
+        intros x0 Hx. apply Good_hfree. apply in_map_iff in Hx. destruct Hx as [kv [E Hin]]. subst x0.
+        apply D1. eapply dict_del_In. exact Hin.
+    Qed.
+
     Lemma post_revision_good : forall G f cls rows vals s vals' s',
       HV s -> Forall (Good G s) vals ->
-      post_revision f cls rows vals s = Ok (vals', s') ->
+      post_revision New f cls rows vals s = Ok (vals', s') ->
       (exists e, s' = s ++ e) /\ Forall (Good G s') vals'.
     Proof.
       intros G f cls rows vals s vals' s' Hv HF H. unfold post_revision in H.
@@ -326,18 +351,15 @@ Section Alias.
       destruct (get_field K_XH rows vals) as [[| |[|? ?]| | | | |]|]; try (apply Triv; exact H).
       destruct (lookup s hm) as [[it|l]|]; try (apply Triv; exact H).
       destruct (assoc XH_KEY it) as [xh|]; [|apply Triv; exact H].
-      destruct (deepcopy f s (VIDict hm)) as [[| | | | | | |m kvs]|] eqn:D1; try discriminate;
-        try (destruct (deepcopy f s xh); discriminate).
-      destruct (deepcopy f s xh) as [xh'|] eqn:D2; [|discriminate].
-      destruct (tuplify s xh') as [t|] eqn:T; [|discriminate].
+      destruct (copy_pop New f s (VIDict hm) XH_KEY) as [[[xh' md] s2]|] eqn:CP; [|discriminate].
+      destruct (tuplify s2 xh') as [t|] eqn:T; [|discriminate].
       destruct (atom_pairs t) eqn:P; [|discriminate].
-      unfold alloc in H. inversion H; subst. split; [eexists; reflexivity|].
+      inversion H; subst.
+      destruct (copy_pop_good G f s (VIDict hm) XH_KEY xh' md s' Hv CP) as [[e E] [_ Gmd]]. subst s'.
+      split; [exists e; reflexivity|].
       apply set_field_Forall; [apply set_field_Forall|].
       - eapply Forall_impl; [|exact HF]. intros a Ha. apply Good_ext. exact Ha.
-      - apply Good_fresh_idict; [apply HV_fresh; exact Hv|].
-        intros x Hx. apply Good_hfree. apply deepcopy_hfree in D1. simpl in D1.
-        rewrite forallb_forall in D1. apply in_map_iff in Hx. destruct Hx as [kv [E Hin]]. subst x.
-        apply D1. eapply dict_del_In. exact Hin.
+      - exact Gmd.
       - apply Good_hfree. apply atom_pairs_hfree. exact P.
     Qed.
 
@@ -378,7 +400,7 @@ Section Alias.
       - destruct (class_fields ALL_CLASSES cls) as [rows|]; [|discriminate].
         destruct (conv_fields New f rt cls rows args s) as [[vals s2]|] eqn:C; [|discriminate].
         destruct (conv_fields_good F f rt cls rows args s vals s2 Hv Hs C) as [[e1 E1] G1]. subst s2.
-        destruct (post_revision f cls rows (post_id Hid f cls rows vals (s ++ e1)) (s ++ e1)) as [[vals' s3]|] eqn:R; [|discriminate].
+        destruct (post_revision New f cls rows (post_id Hid f cls rows vals (s ++ e1)) (s ++ e1)) as [[vals' s3]|] eqn:R; [|discriminate].
         inversion H; subst.
         destruct (post_revision_good (pred F) f cls rows _ (s ++ e1) vals' s1 (HV_ext _ _ Hv)
                     (post_id_good _ f cls rows vals (s ++ e1) G1) R) as [_ G2].
